@@ -214,16 +214,30 @@ impl<D: DataMut> GGLWECompressed<D> {
 
 impl<D: DataMut> ReaderFrom for GGLWECompressed<D> {
     fn read_from<R: std::io::Read>(&mut self, reader: &mut R) -> std::io::Result<()> {
-        self.k = TorusPrecision(reader.read_u32::<LittleEndian>()?);
-        self.base2k = Base2K(reader.read_u32::<LittleEndian>()?);
-        self.dsize = Dsize(reader.read_u32::<LittleEndian>()?);
-        self.rank_out = Rank(reader.read_u32::<LittleEndian>()?);
-        let seed_len: u32 = reader.read_u32::<LittleEndian>()?;
-        self.seed = vec![[0u8; 32]; seed_len as usize];
-        for s in &mut self.seed {
+        // Commit metadata only after the payload was read successfully (see `ReaderFrom`).
+        let k: TorusPrecision = TorusPrecision(reader.read_u32::<LittleEndian>()?);
+        let base2k: Base2K = Base2K(reader.read_u32::<LittleEndian>()?);
+        let dsize: Dsize = Dsize(reader.read_u32::<LittleEndian>()?);
+        let rank_out: Rank = Rank(reader.read_u32::<LittleEndian>()?);
+        let seed_len: usize = reader.read_u32::<LittleEndian>()? as usize;
+        // The receiver is pre-allocated: a seed count above its own is a corrupted header (and must not drive an allocation).
+        if seed_len > self.seed.len() {
+            return Err(std::io::Error::new(
+                std::io::ErrorKind::InvalidData,
+                format!("seed count {} exceeds receiver capacity {}", seed_len, self.seed.len()),
+            ));
+        }
+        let mut seed: Vec<[u8; 32]> = vec![[0u8; 32]; seed_len];
+        for s in &mut seed {
             reader.read_exact(s)?;
         }
-        self.data.read_from(reader)
+        self.data.read_from(reader)?;
+        self.k = k;
+        self.base2k = base2k;
+        self.dsize = dsize;
+        self.rank_out = rank_out;
+        self.seed = seed;
+        Ok(())
     }
 }
 
